@@ -299,7 +299,7 @@ func (t *Template) Clone() (*Template, error) {
 	if err != nil {
 		return nil, err
 	}
-	ns := &nameSpace{set: make(map[string]*Template)}
+	ns := &nameSpace{set: make(map[string]*Template), cspCompatible: t.nameSpace.cspCompatible}
 	ns.esc = makeEscaper(ns)
 	ret := &Template{
 		nil,
